@@ -238,7 +238,7 @@ def check_C20(ctx, rep):
     if okc:
         ch = rv[0]
         okc = contains(ch, lambda x: is_call(x, 'Iterator::zip') and contains(x[2][1], lambda y: is_call(y, 'iter_mut') and contains(y, lambda z: z == ('param', 3)))) and \
-            contains(ch, lambda x: is_call(x, 'Framework::<M, R, T>::trigger_events')) and contains(ch, lambda x: isinstance(x, tuple) and x and x[0] == 'fn' and x[1] and x[1].endswith('convert_action'))
+            contains(ch, lambda x: is_call(x, 'Framework::<M, R, T>::trigger_events')) and contains(ch, lambda x: isinstance(x, tuple) and x and x[0] == 'fn' and x[1] == ca.key)
     rep.ob('C20.R3', me, 'count-is-number-of-zipped-writes', okc, 'returns %s' % (shape(rv[0]) if rv else '?'))
     # events are converted one to one, in order
     pushes = [(b, a) for (b, f, a, t) in calls(ma) if callee_str(f).endswith('Vec::<T, A>::push')]
